@@ -42,6 +42,7 @@ type WaitCase struct {
 	CtxOwn bool `json:"ctx_own,omitempty"` // with Cancel: the context is a hand-written type whose Err() returns an error value of its own
 	AfterCancelledRun bool `json:"after_cancelled_run,omitempty"` // the SAME node was run before under another context that was cancelled 30 ms into its first retry wait; the measured run follows at once
 	SpinUs int `json:"spin_us,omitempty"` // batch: every failing attempt of item i ends i*SpinUs microseconds after it began (siblings' waits begin a fraction of a millisecond apart)
+	TightDeadlineMs int `json:"tight_deadline_ms,omitempty"` // Cancel == 0: the context carries a deadline this many ms away — long enough for the next wait, too short for all the waits still to come; every gap that is observed must still be a full wait
 	PreWaitNs int64 `json:"pre_wait_ns,omitempty"` // > 0: the node is first built with THIS wait and run once; then the wait is re-configured (builder method) to WaitNs and the measured run follows
 }
 
@@ -206,6 +207,10 @@ func runWaitCase(cs *WaitCase) (*waitObs, []finding) {
 		c, cf := context.WithTimeout(ctx, time.Duration(cs.DeadlineMs)*time.Millisecond)
 		dl, _ := c.Deadline()
 		w.cancelAt = dl
+		ctx = c
+		defer cf()
+	} else if cs.Cancel == 0 && cs.TightDeadlineMs > 0 {
+		c, cf := context.WithTimeout(ctx, time.Duration(cs.TightDeadlineMs)*time.Millisecond)
 		ctx = c
 		defer cf()
 	} else if cs.Cancel > 0 {
@@ -733,6 +738,14 @@ func runC20(c *Cfg) {
 			cases = append(cases, &WaitCase{Family: "interrupt-late", Kind: kind, WaitNs: int64(400 * time.Millisecond), N: j + 1, K: j + 2, Cancel: j, C: 2, Items: 2, FB: j%2 == 0})
 			if kind == "batch" {
 				cases = append(cases, &WaitCase{Family: "interrupt-late", Kind: kind, WaitNs: int64(400 * time.Millisecond), N: j + 1, K: j + 2, Cancel: j, C: 0, Items: 2, Stop: true})
+			}
+		}
+	}
+	// a deadline that leaves room for the next wait but not for all of them: the waits that do happen are full waits
+	for _, kind := range []string{"struct", "func", "batch"} {
+		for _, wd := range [][2]int{{100, 250}, {40, 100}, {60, 200}} {
+			for _, fb := range []bool{false, true} {
+				cases = append(cases, &WaitCase{Family: "deadline-shorter-than-all-waits", Kind: kind, WaitNs: int64(wd[0]) * int64(time.Millisecond), N: 4, K: 5, TightDeadlineMs: wd[1], C: 0, Items: 1, FB: fb})
 			}
 		}
 	}
